@@ -563,6 +563,17 @@ def c04(ctx):
         scripts.append({"sid": sid, "cfg": {"cmd": rng.choice([2, 8, 32]), "hcap": rng.choice([0, 16]), "set": "raw", "prompt": 0},
                         "steps": [{"ev": "byte", "b": x} for x in b] + [{"ev": "byte", "b": 13}]})
         sid += 1
+    crit = [[13], [10], [9], [27], [91], [67], [27, 91, 65], [27, 91, 49, 59, 53, 68], [0xC3, 0xA9], [97], [8]]
+    fr = [[]]
+    for _ in range(3 if ctx.tier == "quick" else 4):
+        fr = [x + [u] for x in fr for u in range(len(crit))]
+        for sq in fr:
+            b = [97]
+            for u in sq:
+                b += crit[u]
+            scripts.append({"sid": sid, "cfg": {"cmd": 16, "hcap": 16, "set": "raw", "prompt": 0},
+                            "steps": [{"ev": "byte", "b": x} for x in b + [98, 13]]})
+            sid += 1
     validate_cli(ctx, vh, scripts, "C04", "c04", shards=12)
     return ctx.finish("closed state graph of Decoder over 46 boundary bytes: every (state, byte) transition replayed on "
                       "InputGenerator via its shortest path; all sequences of <= %d key units over %d unit kinds; random unit "
@@ -614,6 +625,10 @@ def c05(ctx):
     prof = {"cmd": [0, 1, 2, 3, 4, 5, 6, 7, 8, 16, 64], "hcap": [0, 4, 16], "sets": ALLSETS, "steps": (10, 80),
             "alphabet": ALLCH + sessions.W1, "w": {"char": 40, "bs": 14, "left": 14, "right": 10, "up": 3, "down": 2, "tab": 3, "enter": 3, "word": 3}}
     scripts += sessions.gen_sessions(rng, 600 if q else 20000, prof, sid0=len(scripts) + 1)
+    tabs = c11_systematic(ctx)
+    for x in tabs:
+        x["steps"] = x["steps"] + scen(["<right>", "x", "<left>", "<bs>"])
+    scripts += tabs if not q else rng.sample(tabs, min(len(tabs), 800))
     validate_cli(ctx, vh, scripts, "C05", "c05", shards=12)
     return ctx.finish("closed state graph of Editor for every buffer size in %s over one character of each UTF-8 length, every "
                       "transition replayed on the real Editor through its shortest path; random edit sessions at sizes up to 64" % caps)
@@ -742,7 +757,17 @@ def c07(ctx):
         if rng.random() < 0.3:
             steps += [{"ev": "byte", "b": 8}] * rng.randint(1, 2)
         steps.append({"ev": "byte", "b": 13})
-        scripts.append({"sid": sid, "cfg": {"cmd": 64, "hcap": rng.choice([0, 16]), "set": "raw", "prompt": 0}, "steps": steps})
+        r = rng.random()
+        hcap = rng.choice([0, 16])
+        if r < 0.25:
+            # recalled from history and submitted again (possibly after an edit)
+            hcap = 64
+            steps += scen(["<up>"] + (["<left>", "<right>"] if rng.random() < 0.5 else []) + ["<enter>"])
+        elif r < 0.35 and len(steps) > 2:
+            # the echo of one character fails in the sink; the line is submitted afterwards
+            k = rng.randrange(len(steps) - 1)
+            steps[k] = dict(steps[k], fail={"at": 1, "mode": "once"})
+        scripts.append({"sid": sid, "cfg": {"cmd": 64, "hcap": hcap, "set": "raw", "prompt": 0, "rawproc": rng.random() < 0.3}, "steps": steps})
         sid += 1
     validate_cli(ctx, vh, scripts, "C07", "c07", shards=12)
     return ctx.finish("every line of length <= %d over 6 symbols through the real Tokens::new, each record validated by TLC "
@@ -873,8 +898,16 @@ def c17(ctx):
         steps += [{"ev": "byte", "b": v} for v in R + R]
         bs = [32] + x + x + [32, 45] + (x if cp not in (0x68, 0x2D, 0x20) else [0x76]) + [32, 0x22] + utf8(a) + x + [0x22]
         bs += [13] + sessions.KEY_BYTES["up"] + [13]
+        # recalled and edited: move inside, insert the character again, delete it, submit
+        bs += sessions.KEY_BYTES["up"] + L + L + x + BS + R + x + [13]
         steps += [{"ev": "byte", "b": v} for v in bs]
         scripts.append({"sid": i + 1, "cfg": {"cmd": 64, "hcap": 64, "set": "raw", "prompt": 0}, "steps": steps})
+        # as many 1-byte characters as the character has octets, then the character; delete the short ones
+        # from behind it, walk to the end, go on typing
+        w = len(x)
+        bs2 = [0x61 + k for k in range(w)] + x + L + BS * w + R + R + [0x63] + L + L + [0x64, 13]
+        scripts.append({"sid": 2000000 + i, "cfg": {"cmd": 64, "hcap": 0, "set": "raw", "prompt": 1},
+                        "steps": [{"ev": "byte", "b": v} for v in bs2]})
     ctx.extra["scalars_through_cli"] = len(cps)
     validate_cli(ctx, vh, scripts, "C17", "c17", shards=14)
     return ctx.finish("one record per scalar value with the library's encode_utf8, char_count, char_byte_index, char_pop_front "
@@ -992,7 +1025,20 @@ SIZES_HIST = [0, 1, 2, 3, 5, 9, 16, 33, 64]
 ALLSETS = ["leds", "mixed", "raw", "grouped", "tiny", "wide"]
 
 
-def cli_property(ctx, focus, mc_consts, mc_limit, profiles, rule, shards=12, extra_scripts=None, models=(), typed=0):
+def inject_faults(rng, scripts, share):
+    """Give a share of the sessions one transient sink failure at a random call (the calls that follow run
+    with a working sink again)."""
+    out = []
+    for sc in scripts:
+        if sc["steps"] and rng.random() < share:
+            sc = dict(sc, steps=[dict(st) for st in sc["steps"]])
+            st = rng.choice(sc["steps"][: max(1, len(sc["steps"]) - 3)])
+            st["fail"] = {"at": rng.randint(1, 4), "mode": rng.choice(["once", "once", "perm"])}
+        out.append(sc)
+    return out
+
+
+def cli_property(ctx, focus, mc_consts, mc_limit, profiles, rule, shards=12, extra_scripts=None, models=(), typed=0, faults=0.0):
     vh = vlib.build_harness()
     rng = random.Random(ctx.seed)
     for module, cfg, consts in models:
@@ -1014,6 +1060,8 @@ def cli_property(ctx, focus, mc_consts, mc_limit, profiles, rule, shards=12, ext
         sid += n
     if extra_scripts:
         scripts += extra_scripts
+    if faults:
+        scripts = inject_faults(rng, scripts, faults)
     if typed:
         # sessions whose processor is derived from a declaration of the catalogue (parse errors, help, sub-commands)
         scripts += typed_sessions(rng, typed, 8000001, load_catalogue()[1])
@@ -1149,8 +1197,8 @@ def c15(ctx):
     return cli_property(ctx, "C15",
                         [dict(SMALL, WithApi=True)] if q else [dict(MED, WithApi=True)],
                         2000 if q else 100000,
-                        [(1000 if q else 30000, prof)], typed=200 if q else 5000,
-                        rule="all session kinds (keys, completion, recall, handler output, help requests, Cli::write, set_prompt, sinks "
+                        [(1000 if q else 30000, prof)], typed=200 if q else 5000, faults=0.25,
+                        rule="a quarter of the sessions suffer one transient sink failure (what is written after it must be flushed too); all session kinds (keys, completion, recall, handler output, help requests, Cli::write, set_prompt, sinks "
                         "that accept writes only partially); after every successful call TLC requires that no write follows the "
                         "last flush in the recorded sink operations")
 
